@@ -5,7 +5,7 @@
 //! size limit (... jump distance ...) is reported as a compile error rather than producing code
 //! that misbehaves".
 use crate::{check, harnesses, reach};
-use koto_bytecode::{Op, verif_hooks::EmitProbe};
+use koto_bytecode::{FunctionFlags, Op, verif_hooks::EmitProbe};
 
 /// The LEB128-style spec of `push_var_u32`: number of 7-bit groups needed for n
 fn groups(n: u32) -> usize {
@@ -118,6 +118,22 @@ fn emit_op_byte_roundtrip(s) {
     let b = s.u8();
     let op = Op::from(b);
     check!(s, "Op::from(byte) as u8 == byte (no two bytes decode to the same op)", op as u8 == b);
+}
+
+
+fn emit_function_flags_roundtrip(s) {
+    // full domain: the four properties of a function survive the trip through the flags byte that
+    // the compiler emits and the decoder reads back (variadic / generator decide how a call binds, C02)
+    let (variadic, generator, unpacked, non_local) = (s.bool(), s.bool(), s.bool(), s.bool());
+    let flags = FunctionFlags::new(variadic, generator, unpacked, non_local);
+    check!(s, "is_variadic reads back what was set", flags.is_variadic() == variadic);
+    check!(s, "is_generator reads back what was set", flags.is_generator() == generator);
+    check!(s, "arg_is_unpacked_tuple reads back what was set", flags.arg_is_unpacked_tuple() == unpacked);
+    check!(s, "non_local_access reads back what was set", flags.non_local_access() == non_local);
+    let byte = u8::from(flags);
+    check!(s, "a flags byte written by the compiler is in the decodable range", byte <= 0b1111);
+    // (FunctionFlags::try_from accepts exactly the bytes <= 0b1111; its error arm formats a String, which
+    // CBMC cannot digest in the budget, so the decoder side is covered by the range check above)
 }
 
 }
